@@ -42,6 +42,20 @@ func noJoint(es []envSpec) []envSpec {
 	return out
 }
 
+// tiflashOfflineEnvs: 3 TiKV stores and 3 TiFlash stores of which the last is offline; 2 voters + 1 TiFlash learner.
+func tiflashOfflineEnvs() []envSpec {
+	return []envSpec{{N: 6, Kinds: []int{kUp, kUp, kUp, kTiFlash, kTiFlash, kTiFlashOff}, Replicas: 2, Rules: 2}}
+}
+
+// followerRuleEnvs: 5 stores of which the last two match the follower rule only; 3 replicas = 2 voters + 1 follower.
+func followerRuleEnvs() []envSpec {
+	var out []envSpec
+	for _, j := range []int{0, 1} {
+		out = append(out, envSpec{N: 5, Kinds: []int{kUp, kUp, kUp, kFollowerOnly, kFollowerOnly}, Replicas: 3, Rules: 4, Joint: j})
+	}
+	return out
+}
+
 func scopes() []*scope {
 	one := []int{0}
 	allTypes := append(append([]string(nil), coldTypes...), hotTypes...)
@@ -61,10 +75,11 @@ func scopes() []*scope {
 			gen: concat(genScatter(mkEnvs([]int{4}, []int{3}, []int{0, 1}, one, 1, allKinds[:6]), scatterBounds{hist: 2, groups: 1}),
 				genScatter(mkEnvs([]int{5}, []int{3}, one, []int{0, 1}, 1, plainKinds), scatterBounds{hist: 1, groups: 1}))},
 		{name: "scatter/learners+tiflash/hist<=1", tiers: "quick",
-			desc: "placement rules with a learner, histories of <=1 earlier call, last call in every peer order with every leader: (a) 2 voters + 1 learner on TiKV stores, 4 stores (<=1 offline/down/evicted/reject-leader) and 5 up stores; (b) 2 voters + 1 learner constrained to engine=tiflash, 5 stores of which 2 are TiFlash, <=1 of the others offline/down/evicted/reject-leader",
+			desc: "placement rules with a learner, histories of <=1 earlier call, last call in every peer order with every leader: (a) 2 voters + 1 learner on TiKV stores, 4 stores (<=1 offline/down/evicted/reject-leader) and 5 up stores; (b) 2 voters + 1 learner constrained to engine=tiflash, 5 stores of which 2 are TiFlash, <=1 of the others offline/down/evicted/reject-leader; (c) 3 TiKV + 3 TiFlash stores, one TiFlash store offline, histories of <=2 calls",
 			gen: concat(genScatter(mkEnvs([]int{4}, []int{2}, []int{3}, one, 1, plainKinds), scatterBounds{hist: 1, groups: 1}),
 				genScatter(mkEnvs([]int{5}, []int{2}, []int{3}, one, 0, nil), scatterBounds{hist: 1, groups: 1}),
-				genScatter(tiflashEnvs(5, 2, plainKinds), scatterBounds{hist: 1, groups: 1}))},
+				genScatter(tiflashEnvs(5, 2, plainKinds), scatterBounds{hist: 1, groups: 1}),
+				genScatter(tiflashOfflineEnvs(), scatterBounds{hist: 2, groups: 1}))},
 		{name: "sched/4stores/rules-off", tiers: "quick",
 			desc: "4 stores of which <=1 is offline/down/disconnected/tombstone/evicted/reject-leader, 3 replicas, rules off; region on stores 1-3 with every leader, optionally one follower pending; every load vector over 3 levels; balance-region, balance-leader, shuffle-leader, shuffle-region, evict-leader (every evicted store), grant-leader (every up store), label, scatter-range; hot-region and shuffle-hot-region (region hot for read / write, 2 load levels, no pending peer)",
 			gen: concat(genSched(mkEnvs([]int{4}, []int{3}, one, one, 1, allKinds[:6]), schedBounds{types: coldTypes, levels: 3, pending: true}),
@@ -84,6 +99,10 @@ func scopes() []*scope {
 			desc: "joint consensus switched off (enable-joint-consensus=false) and not supported (feature disabled): 4 stores of which <=1 is offline/down/evicted/reject-leader, 3 replicas, rules {off, on}: scatter histories of <=2 earlier calls, last call in every peer order with every leader; all schedulers on 2 load levels",
 			gen: concat(genScatter(noJoint(mkEnvs([]int{4}, []int{3}, []int{0, 1}, one, 1, plainKinds)), scatterBounds{hist: 2, groups: 1}),
 				genSched(noJoint(mkEnvs([]int{4}, []int{3}, []int{0, 1}, one, 1, plainKinds)), schedBounds{types: allTypes, levels: 2}))},
+		{name: "follower-rule/5stores", tiers: "quick",
+			desc: "placement rules with a follower rule: 2 voters on 3 ordinary stores and 1 follower on 2 stores labelled for the follower rule (their voters must never lead), joint consensus on and switched off: all schedulers on 2 load levels with every region on every store subset; scatter histories of <=1 call",
+			gen: concat(genSched(followerRuleEnvs(), schedBounds{types: allTypes, levels: 2, allSubsets: true}),
+				genScatter(followerRuleEnvs(), scatterBounds{hist: 1, groups: 1}))},
 		// ------------------------------------------------------------ thorough
 		{name: "scatter/5stores/all-up/hist<=3", tiers: "thorough",
 			desc: "5 up stores, 3 replicas, rules off and on: every sequence of <=3 earlier Scatter calls (every 3-store region, groups g1 g2) followed by Scatter of every 3-store region in every peer order with every leader",
